@@ -76,12 +76,43 @@ def nontrivial_obs(io):
 
 # ---------------------------------------------------------------------------------------------
 
+def api_oracle(ctx, res):
+    """The PUBLIC entry points (`N::try_parse(input)` …, which create their own stack and tracker, and the derived
+    `TypedParser` impl's `try_parse::<N>` / `try_check::<N>`) must give what the `_with` functions give on a fresh
+    stack and tracker: same verdict, end offset, tree (Debug rendering) and error message."""
+    n = 0
+    for c, io, mo in res.rows():
+        api = io.get("api")
+        if api is None:
+            continue
+        n += 1
+        v = io.get("v")
+        if api.startswith("ok"):
+            parts = api.split(":")
+            bad = v != "ok"
+            if not bad and c[2] in ("parse_partial", "check_partial") and len(parts) > 1 and parts[1] != io.get("end"):
+                bad = True
+            if not bad and c[2] in ("parse_partial", "parse") and len(parts) > 2 and parts[2] != io.get("dbg"):
+                bad = True
+            if bad:
+                ctx.violation("public entry point disagrees with the same run on a fresh stack and tracker", c, api=api[:200],
+                              with_={k: io.get(k) for k in ("v", "end")})
+        elif api.startswith("fail:"):
+            if v != "fail" or (io.get("msg") not in (None, "panic", "nondet") and api[5:] != io.get("msg")):
+                ctx.violation("public entry point's error differs from the report of the same run", c, api=api[:300], v=v, msg=io.get("msg", "")[:300])
+        tp = io.get("tp")
+        if tp is not None and tp != v:
+            ctx.violation("TypedParser::try_parse / try_check disagrees with the rule struct's entry point", c, tp=tp, v=v)
+    ctx.coverage.setdefault("distribution", {})["public_api_cases"] = n
+
+
 def check_C03(ctx):
     ctx.rule_text = ("T-run + T-raw corpora (systematic + seeded grammars, exhaustive short inputs over each grammar's "
                      "alphabet + random longer ones, three input forms); a case is non-trivial when it consumed input, "
                      "left a non-empty stack or recorded attempts under more than one rule; distinct by (grammar, rule, form, range, input)")
     keys = ["v", "end", "stk", "trk"]
     for name, res in (("T-run", suites.suite_run(ctx.tier, ctx.seed)), ("T-raw", suites.suite_raw(ctx.tier, ctx.seed))):
+        api_oracle(ctx, res)
         # each path separately against its own model function
         ctx.tie(name + ":parse-path", res, keys, lambda c: c[2] in ("parse_partial", "parse"))
         ctx.tie(name + ":check-path", res, keys, lambda c: c[2] in ("check_partial", "check"))
@@ -401,6 +432,7 @@ def check_C04(ctx):
     ctx.rule_text = RUN_RULE + "; for every (rule, input): try_parse vs (try_parse_partial, then the grammar's WHITESPACE/COMMENT rules applied repeatedly through their own public rule structs at the reached offset unless the rule is @/$, then end test); inputs include ones ending in skippable text and in text that only looks skippable"
     res = suites.suite_run(ctx.tier, ctx.seed)
     ctx.tie("T-run:full-entry", res, ["v", "stk", "trk", "tok"], lambda c: c[2] in ("parse", "check"))
+    api_oracle(ctx, res)
     # independent skip closure from the implementation's own answers for the skip rules
     at = {}
     for c, io, mo in res.rows():
